@@ -76,6 +76,50 @@ func PipelineAsSteps(stmts []*gripql.GraphStatement) map[string]string {
 	return out
 }
 
+// hasNamespaces lists the namespaces (current element or mark names) whose
+// data is read by a has expression
+func hasNamespaces(e *gripql.HasExpression) []string {
+	out := []string{}
+	if e == nil {
+		return out
+	}
+	switch x := e.Expression.(type) {
+	case *gripql.HasExpression_Condition:
+		if x.Condition != nil {
+			out = append(out, jsonpath.GetNamespace(x.Condition.Key))
+		}
+	case *gripql.HasExpression_And:
+		for _, c := range x.And.GetExpressions() {
+			out = append(out, hasNamespaces(c)...)
+		}
+	case *gripql.HasExpression_Or:
+		for _, c := range x.Or.GetExpressions() {
+			out = append(out, hasNamespaces(c)...)
+		}
+	case *gripql.HasExpression_Not:
+		out = append(out, hasNamespaces(x.Not)...)
+	}
+	return out
+}
+
+// templateNamespaces lists the namespaces read by a render template
+func templateNamespaces(t interface{}) []string {
+	out := []string{}
+	switch x := t.(type) {
+	case string:
+		out = append(out, jsonpath.GetNamespace(x))
+	case map[string]interface{}:
+		for _, v := range x {
+			out = append(out, templateNamespaces(v)...)
+		}
+	case []interface{}:
+		for _, v := range x {
+			out = append(out, templateNamespaces(v)...)
+		}
+	}
+	return out
+}
+
 // PipelineStepOutputs identify the required outputs for each step in the traversal
 func PipelineStepOutputs(stmts []*gripql.GraphStatement) map[string][]string {
 
@@ -85,19 +129,25 @@ func PipelineStepOutputs(stmts []*gripql.GraphStatement) map[string][]string {
 	out := map[string][]string{}
 	for i := len(stmts) - 1; i >= 0; i-- {
 		gs := stmts[i]
-		switch gs.GetStatement().(type) {
+		// needData records that the data of the current element (namespace
+		// "__current__") or of a marked element is read by statement i
+		needData := func(namespaces []string) {
+			for _, n := range namespaces {
+				if n == jsonpath.Current {
+					out[steps[i]] = []string{"*"}
+				} else if a, ok := asMap[n]; ok {
+					out[a] = []string{"*"}
+				}
+			}
+		}
+		switch stmt := gs.GetStatement().(type) {
 		case *gripql.GraphStatement_Count:
 			onLast = false
 		case *gripql.GraphStatement_Select:
-			if onLast {
-				sel := gs.GetSelect().Marks
-				for _, s := range sel {
-					if a, ok := asMap[s]; ok {
-						out[a] = []string{"*"}
-					}
-				}
-				onLast = false
-			}
+			// the selected marks are either returned or become the current
+			// element of the statements that follow
+			needData(gs.GetSelect().Marks)
+			onLast = false
 		case *gripql.GraphStatement_Distinct:
 			//if there is a distinct step, we need to load data, but only for requested fields
 			fields := protoutil.AsStringList(gs.GetDistinct())
@@ -132,6 +182,36 @@ func PipelineStepOutputs(stmts []*gripql.GraphStatement) map[string][]string {
 			}
 		case *gripql.GraphStatement_Has:
 			out[steps[i]] = []string{"*"}
+			needData(hasNamespaces(stmt.Has))
+		case *gripql.GraphStatement_HasKey:
+			for _, k := range protoutil.AsStringList(stmt.HasKey) {
+				needData([]string{jsonpath.GetNamespace(k)})
+			}
+		case *gripql.GraphStatement_Fields, *gripql.GraphStatement_Unwind:
+			needData([]string{jsonpath.Current})
+		case *gripql.GraphStatement_Render:
+			needData(templateNamespaces(stmt.Render.AsInterface()))
+		case *gripql.GraphStatement_Aggregate:
+			for _, a := range stmt.Aggregate.GetAggregations() {
+				switch agg := a.GetAggregation().(type) {
+				case *gripql.Aggregate_Term:
+					needData([]string{jsonpath.GetNamespace(agg.Term.GetField())})
+				case *gripql.Aggregate_Histogram:
+					needData([]string{jsonpath.GetNamespace(agg.Histogram.GetField())})
+				case *gripql.Aggregate_Percentile:
+					needData([]string{jsonpath.GetNamespace(agg.Percentile.GetField())})
+				case *gripql.Aggregate_Field:
+					needData([]string{jsonpath.GetNamespace(agg.Field.GetField())})
+				case *gripql.Aggregate_Type:
+					needData([]string{jsonpath.GetNamespace(agg.Type.GetField())})
+				}
+			}
+		case *gripql.GraphStatement_Jump:
+			needData(hasNamespaces(stmt.Jump.GetExpression()))
+		case *gripql.GraphStatement_Set:
+			needData([]string{jsonpath.GetNamespace(stmt.Set.GetKey())})
+		case *gripql.GraphStatement_Increment:
+			needData([]string{jsonpath.GetNamespace(stmt.Increment.GetKey())})
 		}
 	}
 	return out
